@@ -429,12 +429,12 @@ theorem nodesOK_unfreeze (d : Defs) (nodes : List AstNode) (h : NodesOK d nodes)
   fun n hn => (NodeOK_congr (d := d) (d' := d.unfreeze) rfl n).mpr (h n hn)
 
 /-- **The statement of C02 for instructions, end to end and without exception.**  Whenever the
-    optimised assembler succeeds (budget ≥ 2), *every* instruction of the program — whether or not
+    optimised assembler succeeds (any budget of at least one pass), *every* instruction of the program — whether or not
     the static optimisation froze it in the first pass — satisfies: evaluating all its candidate
     rules on the final state, at the instruction's own position, in strict mode, resolves some of
     them; exactly one of those has the smallest size; and that one is the emitted encoding. -/
 theorem every_emitted_instruction_is_unique_smallest (opts : Opts) (fs : SrcFiles) (roots : List (List Char)) (res : AsmOk)
-    (hb : 2 ≤ opts.maxIter) (ho : opts.optStatic = true) (h : assemble opts fs roots = .ok res) :
+    (hb : 1 ≤ opts.maxIter) (ho : opts.optStatic = true) (h : assemble opts fs roots = .ok res) :
     ∃ st nodes defs0 d, frontEnd opts fs roots = .ok (st, nodes, defs0) ∧ ReadFrom st nodes d res ∧
       ∀ (pre post : List AstNode) (src : List Char) (ref : Nat), nodes = pre ++ AstNode.instr src (some ref) :: post →
         ref < d.instrs.length →
@@ -444,7 +444,7 @@ theorem every_emitted_instruction_is_unique_smallest (opts : Opts) (fs : SrcFile
           chooseEncoding false rs = (some [(i, (d.instrs.getD ref default).encoding)], []) ∧
           (∀ j b, j < rs.length → rs.getD j .unresolved = .resolved b →
             (d.instrs.getD ref default).encoding.size.getD 0 ≤ b.size.getD 0) := by
-  obtain ⟨st, nodes, defs0, d, hf, hread, hfull⟩ := success_recomputes_everything opts fs roots res hb ho h
+  obtain ⟨st, nodes, defs0, d, hf, hread, hfull⟩ := success_recomputes_everything_at_every_budget opts fs roots res hb ho h
   refine ⟨st, nodes, defs0, d, hf, hread, fun pre post src ref hsplit hin => ?_⟩
   have hwf : NoClash nodes := frontEnd_noClash opts fs roots st nodes defs0 hf
   have hok : NodesOK d.unfreeze nodes := pass_establishes_ok st nodes false true d.unfreeze d.unfreeze true [] hfull hwf
